@@ -96,6 +96,49 @@ def comparison_functions(ctx: Ctx) -> List[FuncInfo]:
     return fns
 
 
+def check_equality_routines(ctx: Ctx, rr: RuleResult) -> None:
+    """Structure of the deep-equality routine(s): containers of different size
+    differ; a member absent on one side is not identified with a null member."""
+    # (d) structure of the deep-equality routine: containers of different size differ, a member
+    #     that is absent on one side is not identified with a null member
+    for fn in equality_routines(ctx):
+        params = [a.arg for a in fn.node.args.args if a.arg not in ("self", "cls")]
+        n_branch = 0
+        for n in ast.walk(fn.node):
+            if isinstance(n, ast.Call) and callee_name(n) == "isinstance" and len(n.args) == 2 and path_of(n.args[0]) == params[0]:
+                names_ = {x.id for x in ast.walk(n.args[1]) if isinstance(x, ast.Name)}
+                if names_ & {"Mapping", "dict", "Sequence", "list", "MutableMapping", "MutableSequence"}:
+                    n_branch += 1
+        len_cmp = [
+            n for n in ast.walk(fn.node)
+            if isinstance(n, ast.Compare) and len(n.ops) == 1 and isinstance(n.ops[0], ast.Eq)
+            and all(isinstance(x, ast.Call) and callee_name(x) == "len" for x in (n.left, n.comparators[0]))
+            and {path_of(n.left.args[0]), path_of(n.comparators[0].args[0])} == set(params)  # type: ignore[union-attr]
+        ]
+        if n_branch and len(len_cmp) >= n_branch:
+            rr.ok(fn.loc(), f"{fn.qualname}: sizes compared in each of the {n_branch} container branches")
+        else:
+            rr.bad(fn, fn.node, f"{fn.qualname} compares containers without comparing their sizes in every container "
+                   "branch (zip / member iteration would ignore the extra elements)",
+                   construct=f"{fn.name}: {len(len_cmp)} size comparisons for {n_branch} container branches")
+        for c in calls(fn.node, "get"):
+            if isinstance(c.func, ast.Attribute) and path_of(c.func.value) in params:
+                dflt = c.args[1] if len(c.args) > 1 else None
+                if dflt is None or isinstance(dflt, ast.Constant):
+                    rr.bad(fn, c, f"`{short(c)}` reads a missing member as "
+                           f"{'None' if dflt is None else repr(dflt.value)}, which is itself a JSON value: "
+                           "{\"a\": null} would equal {\"b\": null}", construct=short(c))
+        for n in ast.walk(fn.node):
+            if isinstance(n, ast.Subscript) and path_of(n.value) in params and isinstance(n.ctx, ast.Load) and not isinstance(n.slice, ast.Slice):
+                site_facts = ctx.partial._facts(fn, n)
+                kp = path_of(n.slice)
+                if kp and f"in:{path_of(n.value)}@{kp}" in site_facts:
+                    rr.ok(fn.loc(n), f"{fn.qualname}: `{short(n)}` after a membership test of the same key")
+                else:
+                    rr.bad(fn, n, f"`{short(n)}` is read without a test that the member exists on that side",
+                           construct=short(n))
+
+
 def r2_1(ctx: Ctx) -> RuleResult:
     rr = RuleResult("R2.1", "comparison kind discipline", floor=3)
     for fn in comparison_functions(ctx):
@@ -141,6 +184,7 @@ def r2_1(ctx: Ctx) -> RuleResult:
                            construct=f"{short(node)} with kinds {sorted(lk)} / {sorted(rk)}")
                 else:
                     rr.ok(fn.loc(node), f"{fn.qualname}: `{short(node)}` with {sorted(lk)} / {sorted(rk)}")
+    check_equality_routines(ctx, rr)
     # (c) Nothing equals only Nothing
     und = ctx.repo.get_class("jsonpath.filter._Undefined")
     if und is None or "__eq__" not in und.methods:
@@ -226,18 +270,52 @@ def r2_2(ctx: Ctx) -> RuleResult:
                 return ["not_logical@"]
             return []
 
-        flow = must_flow(fn.node, refine_events=refine)
-        for node in ast.walk(fn.node):
-            if isinstance(node, ast.Assign) and isinstance(node.value, ast.Attribute) and node.value.attr == "obj" and isinstance(
-                node.value.value, ast.Subscript
+        def refine2(test: ast.expr, branch: bool) -> List[str]:
+            ev = refine(test, branch)
+            if (
+                isinstance(test, ast.Compare) and len(test.ops) == 1 and isinstance(test.ops[0], ast.Eq)
+                and isinstance(test.left, ast.Call) and callee_name(test.left) == "len" and test.left.args
+                and isinstance(test.comparators[0], ast.Constant) and test.comparators[0].value == 1 and branch
             ):
-                st = flow.pre.get(id(node)) or frozenset()
-                if "not_logical@" in st:
-                    rr.ok(fn.loc(node), f"{fn.qualname}: `{short(node)}` only for comparison operators")
-                else:
-                    rr.bad(fn, node, "a single-node list is unwrapped to its value for a logical operator too: "
-                           "`@.a && @.b` would then test the truthiness of the values instead of existence",
-                           construct=short(node))
+                p = path_of(test.left.args[0])
+                if p:
+                    ev.append("single@" + p)
+            return ev
+
+        flow = must_flow(fn.node, refine_events=refine2)
+        # the variables holding the evaluated operands
+        operands = set()
+        first_assign = {}
+        for node in ast.walk(fn.node):
+            if isinstance(node, ast.Assign) and isinstance(node.targets[0], ast.Name):
+                v = node.value.value if isinstance(node.value, ast.Await) else node.value
+                if isinstance(v, ast.Call) and callee_name(v) in ("evaluate", "evaluate_async"):
+                    operands.add(node.targets[0].id)
+                    first_assign[node.targets[0].id] = node
+        if len(operands) < 2:
+            raise AnalysisError(f"R2.2: cannot find the evaluated operands in {fn.qualname}")
+        for node in ast.walk(fn.node):
+            if not (isinstance(node, ast.Assign) and isinstance(node.targets[0], ast.Name) and node.targets[0].id in operands):
+                continue
+            var = node.targets[0].id
+            if node is first_assign.get(var):
+                continue
+            st = flow.pre.get(id(node)) or frozenset()
+            v = node.value
+            is_first_obj = (
+                isinstance(v, ast.Attribute) and v.attr == "obj" and isinstance(v.value, ast.Subscript)
+                and path_of(v.value.value) == var and isinstance(v.value.slice, ast.Constant) and v.value.slice.value == 0
+            )
+            if "not_logical@" not in st:
+                rr.bad(fn, node, "a node list is unwrapped to a value for a logical operator too: "
+                       "`@.a && @.b` would then test the truthiness of the values instead of existence",
+                       construct=short(node))
+            elif not is_first_obj or "single@" + var not in st:
+                rr.bad(fn, node, f"the operand `{var}` is converted with `{short(v)}` without being a node list of "
+                       "exactly one node: an empty node list must stay Nothing (it equals only Nothing) and a "
+                       "multi-node list is not a value", construct=short(node))
+            else:
+                rr.ok(fn.loc(node), f"{fn.qualname}: `{short(node)}` only for a single-node list under a comparison")
     return rr
 
 
@@ -566,4 +644,17 @@ def r2_6(ctx: Ctx) -> RuleResult:
     return rr
 
 
-RULES = [r2_1, r2_2, r2_3, r2_4, r2_5, r2_6]
+def r2_7(ctx: Ctx) -> RuleResult:
+    """`$` keeps denoting the query argument on a re-used compiled query: the
+    cached value of a root query lives in a per-resolution copy (= R9.3)."""
+    from .c09 import r9_3
+
+    rr = r9_3(ctx)
+    rr.rule = "R2.7"
+    rr.title = "cached root-query values do not outlive one resolution (R9.3)"
+    for f in rr.findings:
+        f.rule = "R2.7"
+    return rr
+
+
+RULES = [r2_1, r2_2, r2_3, r2_4, r2_5, r2_6, r2_7]
